@@ -37,6 +37,8 @@ COND_FORMS = [
     ("exists1", lambda V: [("exists", V)]),
     ("exists3", lambda V: [("exists", "list-help", V, "list-owner")]),
     ("notexists2", lambda V: [("notexists", V, "h2")]),
+    ("exists-repeat", lambda V: [("exists", V, "X-Virus", V)]),
+    ("envelope-repeat", lambda V: [("envelope", ":is", ["From", "From"], [V, "k", V])]),
     ("size:over", lambda V: [("size", ":over", "100k")]),
     ("size:under", lambda V: [("size", ":under", "5")]),
     ("envelope:is", lambda V: [("envelope", ":is", ["From"], [V])]),
